@@ -1,7 +1,7 @@
 CONSTANTS
   MaxPts = 3
   MaxOff = 2
-  MaxCalls = 6
+  MaxCalls = 5
   Lattice = "L4"
   Protos = {"seg", "pt"}
   SampleMod = 1
